@@ -338,9 +338,11 @@ def execute(p: Dict[str, Any]) -> Dict[str, Any]:
                             age = max(0.0, (now_dt - t2core._parse_iso(ts, now_dt)).total_seconds() / 86400.0) if ts else 365.0
                             rec = max(0.0, min(1.0, 1.0 - age / 365.0))
                             imp = max(0.0, min(1.0, float((e.get("aux") or {}).get("importance", 0.5))))
-                            comb.append((-(al * (cosv + 1.0) / 2.0 + be * rec + ga * imp), i))
-                        for (s1, i1), (s2, i2) in zip(comb, comb[1:]):
-                            if s1 > s2 + 1e-9 or (abs(s1 - s2) <= 1e-12 and i1 > i2):
+                            comb.append((-(al * (cosv + 1.0) / 2.0 + be * rec + ga * imp), i, (cosv, rec, imp)))
+                        # a clear misorder, or an id misorder between two hits whose three components are EXACTLY equal (a difference in
+                        # the last bits is a difference: the engine ranks by the score it computed, and so it should)
+                        for (s1, i1, c1), (s2, i2, c2) in zip(comb, comb[1:]):
+                            if s1 > s2 + 1e-9 or (c1 == c2 and i1 > i2):
                                 bad("ranking-order", "combined score order broken between %s (%.6f) and %s (%.6f); %s" % (i1, -s1, i2, -s2, ctxs))
                                 break
                         if sorted(qlog["out"]) != sorted(qlog["in"]):
